@@ -412,5 +412,58 @@ def rule_layout(ctx):
     return res.finish(2)
 
 
+def _seq_root(t):
+    t = as_term(t)
+    while t is not None and t.is_call("iter", "into_iter", "cloned", "copied", "iter_mut", "view", "to_vec", "to_owned") and t.args:
+        t = as_term(t.args[0])
+    return t
+
+
+def rule_importance(ctx):
+    """'feature importances are non-negative and sum to one whenever the tree has a split': the relative importances are
+    a vector divided, element by element, by the sum of that very vector."""
+    res = RuleResult("R-C14-importance", "relative_impurity_decrease divides each element of one sequence by the sum of that same sequence (importances sum to one by construction)")
+    F = ctx.facts()
+    for fn in find_fn(res, F, "relative_impurity_decrease", "DecisionTree"):
+        key = fn_key(fn)
+        tr = Tracer(fn).run()
+        res.instance("%s : x_j / sum_j x_j" % key)
+        v = as_term(tr.result)
+        while v is not None and v.is_call("collect", "Ok", "Some") and v.args:
+            v = as_term(v.args[0])
+        ok, why = False, "result is not `seq.map(|x| x / total)`: %s" % k(tr.result)[:100]
+        if v is not None and v.is_call("map", "mapv", "mapv_into") and len(v.args) == 2:
+            seq = _seq_root(v.args[0])
+            clo = as_term(v.args[1])
+            body = as_term(clo.args[0]) if clo is not None and clo.op.startswith("closure#") and clo.args else None
+            if body is not None and body.op == "bin:/" and len(body.args) == 2:
+                num, den = as_term(body.args[0]), as_term(body.args[1])
+                dsum = den if den is not None and den.is_call("sum") and den.args else None
+                dseq = _seq_root(dsum.args[0]) if dsum is not None else None
+                if num is None or not num.op.startswith(("local:", "cparam:")) or num.args:
+                    why = "the numerator `%s` is not the bare element of the mapped sequence" % k(body.args[0])[:60]
+                elif dseq is None or seq is None or dseq.key() != seq.key():
+                    why = "the divisor `%s` is not the sum of the sequence being divided (`%s`)" % (k(body.args[1])[:60], k(seq)[:50] if seq is not None else "?")
+                else:
+                    ok = True
+            elif body is not None:
+                why = "each element is mapped to `%s`, not to element / sum(elements)" % k(body)[:80]
+        if ok:
+            res.ok()
+            res.sample({"fn": key, "form": "seq.map(|x| x / seq.sum())"})
+        else:
+            res.violate("%s : not-self-normalised" % key, why + ": the importances then do not sum to one", fn_loc(fn))
+    for fn in find_fn(res, F, "feature_importance", "DecisionTree"):
+        key = fn_key(fn)
+        tr = Tracer(fn).run()
+        res.instance("%s : is the relative impurity decrease" % key)
+        v = as_term(tr.result)
+        if v is not None and v.is_call("relative_impurity_decrease"):
+            res.ok()
+        else:
+            res.violate("%s : other-source" % key, "feature_importance is not the relative impurity decrease: %s" % k(tr.result)[:80], fn_loc(fn))
+    return res.finish(2)
+
+
 def rules(tier):
-    return [rule_route, rule_limits, rule_weights, rule_layout]
+    return [rule_route, rule_limits, rule_weights, rule_layout, rule_importance]
